@@ -437,21 +437,15 @@ Section Facts.
     - intros x _. rewrite existsb_map. simpl. now rewrite existsb_andb_l.
   Qed.
 
-  Lemma dnf_conj_sound fixed fs dl g :
+  Lemma dnf_conj_sound fs dl g :
     Forall2 (fun a l => forall e, existsb (fun y => EV e y) l = EV e a) fs dl ->
-    dnf_conj A (o_aeq O) (o_true O) (o_false O) (o_is_true O) (o_is_false O) fixed (FAnd fs) dl = Ok g ->
+    dnf_conj A (o_aeq O) (o_true O) (o_false O) (o_is_true O) (o_is_false O) (FAnd fs) dl = Ok g ->
     forall e, EV e g = EV e (FAnd fs).
   Proof.
     intros HF H e. unfold dnf_conj in H.
     assert (Hall : forallb (fun l => existsb (fun y => EV e y) l) dl = forallb (fun x => EV e x) fs).
     { clear H. induction HF as [|a l fs' dl' Hal _ IH]; simpl; [reflexivity|]. now rewrite Hal, IH. }
     destruct (forallb len1 dl); [now inversion H|].
-    destruct (existsb isnil dl) eqn:Hnil.
-    { inversion H. subst g. simpl. rewrite H_false. rewrite <- Hall.
-      apply existsb_exists in Hnil. destruct Hnil as [l [Hin Hl]]. destruct l; [|discriminate].
-      symmetry. apply not_true_is_false. intros Ht. rewrite forallb_forall in Ht.
-      specialize (Ht [] Hin). discriminate. }
-    destruct (negb fixed && negb (Nat.eqb (length dl) 2)); [discriminate|].
     inversion H. subst g.
     change (EV e (fold_left (Or O) (map (dnf_clause A (o_aeq O) (o_true O) (o_false O) (o_is_true O) (o_is_false O)) (product dl)) (FalseF O))
             = EV e (FAnd fs)).
@@ -461,7 +455,7 @@ Section Facts.
     - intros c _. apply dnf_clause_sound.
   Qed.
 
-  Theorem dnf_sound fixed (f : form) : forall deep g, Dnf O fixed deep f = Ok g -> forall e, EV e g = EV e f.
+  Theorem dnf_sound (f : form) : forall deep g, Dnf O deep f = Ok g -> forall e, EV e g = EV e f.
   Proof.
     unfold Dnf.
     induction f as [a|n xs|n xs|f IH|fs IH|fs IH|v i m b IH|v i m b IH|v b IH|v b IH] using formula_ind';
@@ -471,10 +465,10 @@ Section Facts.
     - now inversion H.
     - destruct (is_comb A f); [discriminate|]. now inversion H.
     - match type of H with bind ?G _ = _ => destruct G as [dl|ex] eqn:Hgo end; simpl in H; [|discriminate].
-      refine (dnf_conj_sound fixed fs dl g _ H e).
+      refine (dnf_conj_sound fs dl g _ H e).
       clear H. revert dl Hgo. induction IH as [|x fs' Hx _ IHfs]; intros dl Hgo.
       + inversion Hgo. constructor.
-      + destruct (dnf A (o_aeq O) (o_true O) (o_false O) (o_is_true O) (o_is_false O) fixed true x) as [r|ex] eqn:Hr;
+      + destruct (dnf A (o_aeq O) (o_true O) (o_false O) (o_is_true O) (o_is_false O) true x) as [r|ex] eqn:Hr;
           simpl in Hgo; [|discriminate].
         match type of Hgo with bind ?G _ = _ => destruct G as [rs|ex] eqn:Hrs end; simpl in Hgo; [|discriminate].
         inversion Hgo. subst dl. constructor; [|now apply IHfs].
@@ -485,16 +479,16 @@ Section Facts.
       rewrite fold_or_sound, ev_false. simpl.
       clear H. revert rs Hgo. induction IH as [|x fs' Hx _ IHfs]; intros rs Hgo.
       + now inversion Hgo.
-      + destruct (dnf A (o_aeq O) (o_true O) (o_false O) (o_is_true O) (o_is_false O) fixed true x) as [r|ex] eqn:Hr;
+      + destruct (dnf A (o_aeq O) (o_true O) (o_false O) (o_is_true O) (o_is_false O) true x) as [r|ex] eqn:Hr;
           simpl in Hgo; [|discriminate].
         match type of Hgo with bind ?G _ = _ => destruct G as [rs'|ex] eqn:Hrs end; simpl in Hgo; [|discriminate].
         inversion Hgo. subst rs. simpl. rewrite (Hx true r Hr e). f_equal. now apply IHfs.
     - destruct deep; [|now inversion H].
-      destruct (dnf A (o_aeq O) (o_true O) (o_false O) (o_is_true O) (o_is_false O) fixed true b) as [b'|ex] eqn:Hb;
+      destruct (dnf A (o_aeq O) (o_true O) (o_false O) (o_is_true O) (o_is_false O) true b) as [b'|ex] eqn:Hb;
         simpl in H; [|discriminate].
       inversion H. subst g. simpl. apply forallb_ext_in. intros e' _. now apply (IH true b' Hb e').
     - destruct deep; [|now inversion H].
-      destruct (dnf A (o_aeq O) (o_true O) (o_false O) (o_is_true O) (o_is_false O) fixed true b) as [b'|ex] eqn:Hb;
+      destruct (dnf A (o_aeq O) (o_true O) (o_false O) (o_is_true O) (o_is_false O) true b) as [b'|ex] eqn:Hb;
         simpl in H; [|discriminate].
       inversion H. subst g. simpl. apply existsb_ext_in. intros e' _. now apply (IH true b' Hb e').
     - now inversion H.
@@ -506,29 +500,27 @@ End Facts.
 (* ================= when do the rewrites raise? (no semantics needed) ================= *)
 
 (* positions visited by convert_to_dnf: below conjunctions, disjunctions and tree quantifiers.
-   dsafe fixed f: at every visited position no NegatedFormula sits on a propositional
-   combinator (the assert of convert_to_dnf) and - for the pinned code, fixed = false - every
-   visited conjunction has exactly two arguments. *)
-Fixpoint dsafe {A} (fixed : bool) (f : formula A) : bool :=
+   dsafe f: at every visited position no NegatedFormula sits on a propositional combinator
+   (the assert of convert_to_dnf).  Since /repo commit 71bb9ab the arity of the visited
+   conjunctions no longer matters. *)
+Fixpoint dsafe {A} (f : formula A) : bool :=
   match f with
   | FNot g => negb (is_comb A g)
-  | FAnd fs => (fixed || Nat.eqb (length fs) 2) && forallb (dsafe fixed) fs
-  | FOr fs => forallb (dsafe fixed) fs
-  | FForall _ _ _ b | FExists _ _ _ b => dsafe fixed b
+  | FAnd fs | FOr fs => forallb dsafe fs
+  | FForall _ _ _ b | FExists _ _ _ b => dsafe b
   | _ => true
   end.
 
-(* known-finding classes (boolean predicates over the input formula) *)
-Definition K_dnf_nary {A} (f : formula A) : bool := dsafe true f && negb (dsafe false f).
-Definition K_dnf_not_nnf {A} (f : formula A) : bool := negb (dsafe true f).
+(* known-finding class (boolean predicate over the input formula) *)
+Definition K_dnf_not_nnf {A} (f : formula A) : bool := negb (dsafe f).
 
 (* quantifier bodies that convert_to_nnf leaves untouched must themselves be dsafe *)
-Fixpoint bodies_safe {A} (fixed neg : bool) (f : formula A) : bool :=
+Fixpoint bodies_safe {A} (neg : bool) (f : formula A) : bool :=
   match f with
-  | FNot g => bodies_safe fixed (negb neg) g
-  | FAnd fs | FOr fs => forallb (bodies_safe fixed neg) fs
-  | FForall _ _ _ b | FExists _ _ _ b => if neg then bodies_safe fixed true b else dsafe fixed b
-  | FForallInt _ b | FExistsInt _ b => if neg then bodies_safe fixed true b else true
+  | FNot g => bodies_safe (negb neg) g
+  | FAnd fs | FOr fs => forallb (bodies_safe neg) fs
+  | FForall _ _ _ b | FExists _ _ _ b => if neg then bodies_safe true b else dsafe b
+  | FForallInt _ b | FExistsInt _ b => if neg then bodies_safe true b else true
   | _ => true
   end.
 
@@ -546,49 +538,46 @@ Section Raise.
   Variable O : ops A.
   Notation form := (formula A).
 
-  Lemma dsafe_and fixed a b : dsafe fixed a = true -> dsafe fixed b = true -> dsafe fixed (And O a b) = true.
+  Lemma dsafe_and a b : dsafe a = true -> dsafe b = true -> dsafe (And O a b) = true.
   Proof.
     intros Ha Hb. unfold And, f_and.
     repeat match goal with |- context [if ?c then _ else _] => destruct c end;
       try assumption; try reflexivity.
-    simpl. rewrite Ha, Hb. now rewrite orb_true_r.
+    simpl. now rewrite Ha, Hb.
   Qed.
-  Lemma dsafe_or fixed a b : dsafe fixed a = true -> dsafe fixed b = true -> dsafe fixed (Or O a b) = true.
+  Lemma dsafe_or a b : dsafe a = true -> dsafe b = true -> dsafe (Or O a b) = true.
   Proof.
     intros Ha Hb. unfold Or, f_or.
     repeat match goal with |- context [if ?c then _ else _] => destruct c end;
       try assumption; try reflexivity.
     simpl. now rewrite Ha, Hb.
   Qed.
-  Lemma dsafe_fold_and fixed l : forall x, dsafe fixed x = true -> forallb (dsafe fixed) l = true ->
-    dsafe fixed (fold_left (And O) l x) = true.
+  Lemma dsafe_fold_and l : forall x, dsafe x = true -> forallb dsafe l = true ->
+    dsafe (fold_left (And O) l x) = true.
   Proof.
     induction l as [|y l IH]; intros x Hx Hl; simpl in *; [assumption|].
     apply andb_true_iff in Hl. destruct Hl as [Hy Hl]. apply IH; [now apply dsafe_and | assumption].
   Qed.
-  Lemma dsafe_fold_or fixed l : forall x, dsafe fixed x = true -> forallb (dsafe fixed) l = true ->
-    dsafe fixed (fold_left (Or O) l x) = true.
+  Lemma dsafe_fold_or l : forall x, dsafe x = true -> forallb dsafe l = true ->
+    dsafe (fold_left (Or O) l x) = true.
   Proof.
     induction l as [|y l IH]; intros x Hx Hl; simpl in *; [assumption|].
     apply andb_true_iff in Hl. destruct Hl as [Hy Hl]. apply IH; [now apply dsafe_or | assumption].
   Qed.
-  Lemma dsafe_reduce_and fixed l : forallb (dsafe fixed) l = true ->
-    dsafe fixed (reduce1 A (And O) (TrueF O) l) = true.
+  Lemma dsafe_reduce_and l : forallb dsafe l = true -> dsafe (reduce1 A (And O) (TrueF O) l) = true.
   Proof.
     destruct l as [|x l]; simpl; [reflexivity|]. intros H. apply andb_true_iff in H.
     destruct H as [Hx Hl]. now apply dsafe_fold_and.
   Qed.
-  Lemma dsafe_reduce_or fixed l : forallb (dsafe fixed) l = true ->
-    dsafe fixed (reduce1 A (Or O) (FalseF O) l) = true.
+  Lemma dsafe_reduce_or l : forallb dsafe l = true -> dsafe (reduce1 A (Or O) (FalseF O) l) = true.
   Proof.
     destruct l as [|x l]; simpl; [reflexivity|]. intros H. apply andb_true_iff in H.
     destruct H as [Hx Hl]. now apply dsafe_fold_or.
   Qed.
 
   (* shape of the output of convert_to_nnf: it satisfies the precondition of convert_to_dnf
-     (and is binary) wherever nnf traversed; the untouched quantifier bodies are a premise *)
-  Theorem nnf_dsafe fixed (f : form) : forall neg,
-    bodies_safe fixed neg f = true -> dsafe fixed (Nnf O f neg) = true.
+     wherever nnf traversed; the untouched quantifier bodies are a premise *)
+  Theorem nnf_dsafe (f : form) : forall neg, bodies_safe neg f = true -> dsafe (Nnf O f neg) = true.
   Proof.
     unfold Nnf.
     induction f as [a|n xs|n xs|f IH|fs IH|fs IH|v i m b IH|v i m b IH|v b IH|v b IH] using formula_ind';
@@ -597,11 +586,11 @@ Section Raise.
     - destruct neg; reflexivity.
     - destruct neg; reflexivity.
     - now apply IH.
-    - assert (Hall : forallb (dsafe fixed) (map (fun a => Nnf O a neg) fs) = true).
+    - assert (Hall : forallb dsafe (map (fun a => Nnf O a neg) fs) = true).
       { rewrite forallb_map. apply forallb_forall. intros x Hx.
         apply (Forall_In _ _ IH x Hx). rewrite forallb_forall in H. now apply H. }
       destruct neg; [now apply dsafe_reduce_or | now apply dsafe_reduce_and].
-    - assert (Hall : forallb (dsafe fixed) (map (fun a => Nnf O a neg) fs) = true).
+    - assert (Hall : forallb dsafe (map (fun a => Nnf O a neg) fs) = true).
       { rewrite forallb_map. apply forallb_forall. intros x Hx.
         apply (Forall_In _ _ IH x Hx). rewrite forallb_forall in H. now apply H. }
       destruct neg; [now apply dsafe_reduce_and | now apply dsafe_reduce_or].
@@ -612,30 +601,12 @@ Section Raise.
   Qed.
 
   (* complete account of the outcomes of convert_to_dnf *)
-  Definition dnf_outcome_ok fixed (f : form) (r : res form) : Prop :=
+  Definition dnf_outcome_ok (f : form) (r : res form) : Prop :=
     match r with
     | Ok _ => True
-    | Raise AssertErr => dsafe true f = false
-    | Raise ValueErr => fixed = false /\ dsafe false f = false
+    | Raise AssertErr => dsafe f = false
     | Raise _ => False
     end.
-
-  Lemma dsafe_mono (f : form) : dsafe false f = true -> dsafe true f = true.
-  Proof.
-    induction f as [a|n xs|n xs|f IH|fs IH|fs IH|v i m b IH|v i m b IH|v b IH|v b IH] using formula_ind';
-      simpl; intros H; try assumption; try reflexivity.
-    - apply andb_true_iff in H. destruct H as [_ H]. rewrite forallb_forall in *.
-      intros x Hx. apply (Forall_In _ _ IH x Hx). now apply H.
-    - rewrite forallb_forall in *. intros x Hx. apply (Forall_In _ _ IH x Hx). now apply H.
-    - now apply IH.
-    - now apply IH.
-  Qed.
-
-  Lemma dsafe_false_of_true (f : form) : dsafe true f = false -> dsafe false f = false.
-  Proof.
-    intros H. destruct (dsafe false f) eqn:E; [|reflexivity].
-    apply dsafe_mono in E. congruence.
-  Qed.
 
   Lemma forallb_false_in {X} (p : X -> bool) l x : In x l -> p x = false -> forallb p l = false.
   Proof.
@@ -643,103 +614,81 @@ Section Raise.
     rewrite forallb_forall in E. rewrite (E x Hin) in Hp. discriminate.
   Qed.
 
-  Theorem dnf_outcome fixed (f : form) : forall deep, dnf_outcome_ok fixed f (Dnf O fixed deep f).
+  Theorem dnf_outcome (f : form) : forall deep, dnf_outcome_ok f (Dnf O deep f).
   Proof.
     unfold Dnf.
     induction f as [a|n xs|n xs|f IH|fs IH|fs IH|v i m b IH|v i m b IH|v b IH|v b IH] using formula_ind';
       intros deep; simpl; try exact I.
     - destruct (is_comb A f) eqn:Hc; simpl; [now rewrite Hc | exact I].
     - (* conjunction *)
-      match goal with |- dnf_outcome_ok _ _ (bind ?G _) => assert (HG :
-        match G with
-        | Ok dl => length dl = length fs
-        | Raise AssertErr => exists x, In x fs /\ dsafe true x = false
-        | Raise ValueErr => fixed = false /\ exists x, In x fs /\ dsafe false x = false
-        | Raise _ => False
-        end) end.
-      { induction IH as [|x fs' Hx _ IHfs]; simpl; [reflexivity|].
-        specialize (Hx true). unfold dnf_outcome_ok in Hx.
-        destruct (dnf A (o_aeq O) (o_true O) (o_false O) (o_is_true O) (o_is_false O) fixed true x) as [r|ex]; simpl.
-        - match goal with |- context [bind ?G' _] => destruct G' as [rs|ex'] end; simpl.
-          + simpl in IHfs. now rewrite IHfs.
-          + destruct ex'; try exact IHfs.
-            * destruct IHfs as [y [Hy Hd]]. exists y. split; [now right | assumption].
-            * destruct IHfs as [Hf [y [Hy Hd]]]. split; [assumption|]. exists y. split; [now right | assumption].
-        - destruct ex; try exact Hx.
-          + exists x. split; [now left | assumption].
-          + destruct Hx as [Hf Hd]. split; [assumption|]. exists x. split; [now left | assumption]. }
-      match goal with |- dnf_outcome_ok _ _ (bind ?G _) => destruct G as [dl|ex] end; simpl.
-      + unfold dnf_conj. destruct (forallb len1 dl); [exact I|]. destruct (existsb isnil dl); [exact I|].
-        destruct fixed; simpl; [exact I|].
-        destruct (Nat.eqb (length dl) 2) eqn:Hl; simpl; [exact I|].
-        split; [reflexivity|]. rewrite <- HG, Hl. reflexivity.
-      + destruct ex; try exact HG.
-        * destruct HG as [y [Hy Hd]]. simpl. now apply (forallb_false_in _ _ y).
-        * destruct HG as [Hf [y [Hy Hd]]]. split; [assumption|]. simpl.
-          rewrite (forallb_false_in _ _ y Hy Hd). apply andb_false_r.
-    - (* disjunction *)
-      match goal with |- dnf_outcome_ok _ _ (bind ?G _) => assert (HG :
+      match goal with |- dnf_outcome_ok _ (bind ?G _) => assert (HG :
         match G with
         | Ok _ => True
-        | Raise AssertErr => exists x, In x fs /\ dsafe true x = false
-        | Raise ValueErr => fixed = false /\ exists x, In x fs /\ dsafe false x = false
+        | Raise AssertErr => exists x, In x fs /\ dsafe x = false
         | Raise _ => False
         end) end.
       { induction IH as [|x fs' Hx _ IHfs]; simpl; [exact I|].
         specialize (Hx true). unfold dnf_outcome_ok in Hx.
-        destruct (dnf A (o_aeq O) (o_true O) (o_false O) (o_is_true O) (o_is_false O) fixed true x) as [r|ex]; simpl.
+        destruct (dnf A (o_aeq O) (o_true O) (o_false O) (o_is_true O) (o_is_false O) true x) as [r|ex]; simpl.
         - match goal with |- context [bind ?G' _] => destruct G' as [rs|ex'] end; simpl; [exact I|].
           destruct ex'; try exact IHfs.
-          + destruct IHfs as [y [Hy Hd]]. exists y. split; [now right | assumption].
-          + destruct IHfs as [Hf [y [Hy Hd]]]. split; [assumption|]. exists y. split; [now right | assumption].
-        - destruct ex; try exact Hx.
-          + exists x. split; [now left | assumption].
-          + destruct Hx as [Hf Hd]. split; [assumption|]. exists x. split; [now left | assumption]. }
-      match goal with |- dnf_outcome_ok _ _ (bind ?G _) => destruct G as [rs|ex] end; simpl; [exact I|].
+          destruct IHfs as [y [Hy Hd]]. exists y. split; [now right | assumption].
+        - destruct ex; try exact Hx. exists x. split; [now left | assumption]. }
+      match goal with |- dnf_outcome_ok _ (bind ?G _) => destruct G as [dl|ex] end; simpl.
+      + unfold dnf_conj. destruct (forallb len1 dl); exact I.
+      + destruct ex; try exact HG.
+        destruct HG as [y [Hy Hd]]. now apply (forallb_false_in _ _ y).
+    - (* disjunction *)
+      match goal with |- dnf_outcome_ok _ (bind ?G _) => assert (HG :
+        match G with
+        | Ok _ => True
+        | Raise AssertErr => exists x, In x fs /\ dsafe x = false
+        | Raise _ => False
+        end) end.
+      { induction IH as [|x fs' Hx _ IHfs]; simpl; [exact I|].
+        specialize (Hx true). unfold dnf_outcome_ok in Hx.
+        destruct (dnf A (o_aeq O) (o_true O) (o_false O) (o_is_true O) (o_is_false O) true x) as [r|ex]; simpl.
+        - match goal with |- context [bind ?G' _] => destruct G' as [rs|ex'] end; simpl; [exact I|].
+          destruct ex'; try exact IHfs.
+          destruct IHfs as [y [Hy Hd]]. exists y. split; [now right | assumption].
+        - destruct ex; try exact Hx. exists x. split; [now left | assumption]. }
+      match goal with |- dnf_outcome_ok _ (bind ?G _) => destruct G as [rs|ex] end; simpl; [exact I|].
       destruct ex; try exact HG.
-      * destruct HG as [y [Hy Hd]]. now apply (forallb_false_in _ _ y).
-      * destruct HG as [Hf [y [Hy Hd]]]. split; [assumption|]. now apply (forallb_false_in _ _ y).
+      destruct HG as [y [Hy Hd]]. now apply (forallb_false_in _ _ y).
     - destruct deep; simpl; [|exact I]. specialize (IH true). unfold dnf_outcome_ok in IH.
-      destruct (dnf A (o_aeq O) (o_true O) (o_false O) (o_is_true O) (o_is_false O) fixed true b) as [r|ex];
+      destruct (dnf A (o_aeq O) (o_true O) (o_false O) (o_is_true O) (o_is_false O) true b) as [r|ex];
         simpl; [exact I|]. destruct ex; exact IH.
     - destruct deep; simpl; [|exact I]. specialize (IH true). unfold dnf_outcome_ok in IH.
-      destruct (dnf A (o_aeq O) (o_true O) (o_false O) (o_is_true O) (o_is_false O) fixed true b) as [r|ex];
+      destruct (dnf A (o_aeq O) (o_true O) (o_false O) (o_is_true O) (o_is_false O) true b) as [r|ex];
         simpl; [exact I|]. destruct ex; exact IH.
   Qed.
 
   (* convert_to_dnf does not raise on input that satisfies its precondition (dsafe) *)
-  Theorem dnf_total fixed deep (f : form) : dsafe fixed f = true -> exists g, Dnf O fixed deep f = Ok g.
+  Theorem dnf_total deep (f : form) : K_dnf_not_nnf f = false -> exists g, Dnf O deep f = Ok g.
   Proof.
-    intros H. pose proof (dnf_outcome fixed f deep) as Ho. unfold dnf_outcome_ok in Ho.
-    destruct (Dnf O fixed deep f) as [g|ex]; [now exists g|]. exfalso.
-    destruct ex; try contradiction.
-    - destruct fixed; [congruence|]. apply dsafe_mono in H. congruence.
-    - destruct Ho as [Hf Hd]. subst fixed. congruence.
+    unfold K_dnf_not_nnf. intros H. pose proof (dnf_outcome f deep) as Ho. unfold dnf_outcome_ok in Ho.
+    destruct (Dnf O deep f) as [g|ex]; [now exists g|]. exfalso.
+    destruct ex; try contradiction. rewrite Ho in H. discriminate.
   Qed.
 
-  (* the only exceptions: AssertionError (input not in NNF at a visited position) and - pinned
-     code only - ValueError (visited conjunction with != 2 arguments) *)
-  Theorem dnf_raises fixed deep (f : form) e : Dnf O fixed deep f = Raise e ->
-    (e = AssertErr /\ K_dnf_not_nnf f = true) \/
-    (e = ValueErr /\ fixed = false /\ dsafe false f = false).
+  (* the only exception: AssertionError, and only on input not in NNF at a visited position *)
+  Theorem dnf_raises deep (f : form) e : Dnf O deep f = Raise e -> e = AssertErr /\ K_dnf_not_nnf f = true.
   Proof.
-    intros H. pose proof (dnf_outcome fixed f deep) as Ho. rewrite H in Ho. unfold dnf_outcome_ok in Ho.
-    destruct e; try contradiction.
-    - left. split; [reflexivity|]. unfold K_dnf_not_nnf. now rewrite Ho.
-    - right. destruct Ho as [Hf Hd]. auto.
+    intros H. pose proof (dnf_outcome f deep) as Ho. rewrite H in Ho. unfold dnf_outcome_ok in Ho.
+    destruct e; try contradiction. split; [reflexivity|]. unfold K_dnf_not_nnf. now rewrite Ho.
   Qed.
 
   (* the solver's establish_invariant = split_disjunction(dnf(nnf(f), deep=False)) *)
-  Theorem invariant_ok fixed (f : form) :
-    bodies_safe fixed false f = true -> exists l, Invariant O fixed f = Ok l.
+  Theorem invariant_ok (f : form) : bodies_safe false f = true -> exists l, Invariant O f = Ok l.
   Proof.
     intros H. unfold Invariant, establish_invariant.
-    destruct (dnf_total fixed false (Nnf O f false) (nnf_dsafe fixed f false H)) as [g Hg].
+    assert (Hd : K_dnf_not_nnf (Nnf O f false) = false).
+    { unfold K_dnf_not_nnf. now rewrite (nnf_dsafe f false H). }
+    destruct (dnf_total false (Nnf O f false) Hd) as [g Hg].
     unfold Dnf, Nnf in Hg. rewrite Hg. simpl. eauto.
   Qed.
 
-  Lemma no_tree_quant_bodies fixed (f : form) : forall neg,
-    no_tree_quant f = true -> bodies_safe fixed neg f = true.
+  Lemma no_tree_quant_bodies (f : form) : forall neg, no_tree_quant f = true -> bodies_safe neg f = true.
   Proof.
     induction f as [a|n xs|n xs|f IH|fs IH|fs IH|v i m b IH|v i m b IH|v b IH|v b IH] using formula_ind';
       intros neg H; simpl in *; try reflexivity; try discriminate.
@@ -750,8 +699,7 @@ Section Raise.
     - destruct neg; [now apply IH | reflexivity].
   Qed.
 
-  Corollary invariant_ok_no_tree_quant fixed (f : form) :
-    no_tree_quant f = true -> exists l, Invariant O fixed f = Ok l.
+  Corollary invariant_ok_no_tree_quant (f : form) : no_tree_quant f = true -> exists l, Invariant O f = Ok l.
   Proof. intros H. apply invariant_ok. now apply no_tree_quant_bodies. Qed.
 End Raise.
 
@@ -1031,21 +979,18 @@ Definition w_inv_not_nnf : cform :=
 Definition w_shadow : cform :=
   FForall v_x (InVar v_start) None (FForall v_x (InVar v_x) None x_is_a).
 
-Lemma dnf_nary_witness :
-  arity_ok catom w_nary = true /\ dsafe true w_nary = true /\ K_dnf_nary w_nary = true /\
-  Dnf cops false true w_nary = Raise ValueErr /\ Dnf cops false false w_nary = Raise ValueErr /\
-  (exists g, Dnf cops true true w_nary = Ok g).
-Proof. vm_compute. repeat split; eauto. Qed.
-
-Lemma invariant_nary_witness :
-  arity_ok catom w_inv_nary = true /\ Invariant cops false w_inv_nary = Raise ValueErr /\
-  (exists l, Invariant cops true w_inv_nary = Ok l).
-Proof. vm_compute. repeat split; eauto. Qed.
+(* corpus: the witnesses of the repaired finding dnf-nary (commit 71bb9ab) now convert, and the
+   conversion keeps the verdict (dnf_sound) *)
+Lemma dnf_nary_corpus :
+  arity_ok catom w_nary = true /\ K_dnf_not_nnf w_nary = false /\
+  (exists g, Dnf cops true w_nary = Ok g /\ dsafe g = true) /\
+  (exists g, Dnf cops false w_nary = Ok g) /\
+  (exists l, Invariant cops w_inv_nary = Ok l /\ length l = 2).
+Proof. vm_compute. repeat split; eexists; split; reflexivity || eauto. Qed.
 
 Lemma invariant_not_nnf_witness :
-  arity_ok catom w_inv_not_nnf = true /\
-  forall fixed, Invariant cops fixed w_inv_not_nnf = Raise AssertErr.
-Proof. split; [reflexivity|]. intros [|]; vm_compute; reflexivity. Qed.
+  arity_ok catom w_inv_not_nnf = true /\ Invariant cops w_inv_not_nnf = Raise AssertErr.
+Proof. split; vm_compute; reflexivity. Qed.
 
 Lemma unique_shadow_witness :
   exists g u, Unique cops 20 w_shadow [] = Some (g, u) /\
@@ -1053,76 +998,19 @@ Lemma unique_shadow_witness :
 Proof. vm_compute. eexists. eexists. split; [reflexivity|]. discriminate. Qed.
 
 (* non-vacuity of the guards *)
-Example dsafe_example : dsafe false (FAnd [at_a; FOr [at_b; FNot (FSPred (s_of [112]%N) [])]]) = true.
+Example dsafe_example : dsafe (FAnd [at_a; FOr [at_b; FNot (FSPred (s_of [112]%N) [])]]) = true.
 Proof. reflexivity. Qed.
 Example bodies_safe_example :
-  bodies_safe false false (FAnd [FNot (FForall v_x (InVar v_start) None w_nary); FOr [at_c; at_d]]) = true.
+  bodies_safe false (FAnd [FNot (FForall v_x (InVar v_start) None w_nary); FOr [at_c; at_d]]) = true.
 Proof. reflexivity. Qed.
 Example unique_example : exists g u,
   Unique cops_t 20 (FAnd [FForall v_x (InVar v_start) None x_is_a; FForall v_x (InVar v_start) None x_is_a]) [] = Some (g, u)
   /\ g <> FAnd [FForall v_x (InVar v_start) None x_is_a; FForall v_x (InVar v_start) None x_is_a].
 Proof. vm_compute. eexists. eexists. split; [reflexivity|]. discriminate. Qed.
 
-(* ---------- class of the evaluator-side finding observed through evaluate() ---------- *)
-(* Formula.free_variables() *)
-Fixpoint fvars {A} (afv : A -> list var) (f : formula A) : list var :=
-  let pvars := fun xs => flat_map (fun x => match x with PVar v => [v] | _ => [] end) xs in
-  match f with
-  | FSmt a => afv a
-  | FSPred _ xs | FSemPred _ xs => pvars xs
-  | FNot g => fvars afv g
-  | FAnd fs | FOr fs => flat_map (fvars afv) fs
-  | FForall v i m b | FExists v i m b =>
-      filter (fun w => negb (mem_var w (q_bound v m)))
-             (match i with InVar w => [w] | InTree _ => [] end ++ fvars afv b)
-  | FForallInt v b | FExistsInt v b => filter (fun w => negb (var_eqb w v)) (fvars afv b)
-  end.
-
-(* some universal tree quantifier without match expression does not use its variable:
-   ForallFormula.substitute_expressions then DROPS the quantifier (ExistsFormula's does not),
-   so evaluate() is not compositional on this class *)
-Fixpoint K_vacuous_forall {A} (afv : A -> list var) (f : formula A) : bool :=
-  match f with
-  | FNot g => K_vacuous_forall afv g
-  | FAnd fs | FOr fs => existsb (K_vacuous_forall afv) fs
-  | FForall v _ None b => negb (mem_var v (fvars afv b)) || K_vacuous_forall afv b
-  | FForall _ _ (Some _) b | FExists _ _ _ b | FForallInt _ b | FExistsInt _ b => K_vacuous_forall afv b
-  | _ => false
-  end.
-Definition catom_fv (a : catom) : list var := match a with CEq v _ _ => [v] | _ => [] end.
-Example K_vacuous_example :
-  K_vacuous_forall catom_fv (FForall v_x (InVar v_start) None at_a) = true /\
-  K_vacuous_forall catom_fv (FForall v_x (InVar v_start) None x_is_a) = false.
-Proof. split; reflexivity. Qed.
-
 (* ---------- statements exported by Props/C09.v that need a few proof steps ---------- *)
-Lemma dnf_total_refuted : exists f : cform,
-  arity_ok catom f = true /\ K_dnf_not_nnf f = false /\ K_dnf_nary f = true /\
-  Dnf cops false true f = Raise ValueErr.
-Proof.
-  exists w_nary. destruct dnf_nary_witness as [H1 [H2 [H3 [H4 _]]]].
-  repeat split; try assumption; unfold K_dnf_not_nnf; now rewrite H2.
-Qed.
-
-Lemma dnf_total_partial : forall A (O : ops A) deep (f : formula A),
-  K_dnf_not_nnf f = false -> K_dnf_nary f = false -> exists g, Dnf O false deep f = Ok g.
-Proof.
-  intros A O deep f H1 H2. apply dnf_total. unfold K_dnf_not_nnf, K_dnf_nary in *.
-  destruct (dsafe true f); [|discriminate]. now destruct (dsafe false f).
-Qed.
-
-Lemma dnf_total_fixed : forall A (O : ops A) deep (f : formula A),
-  K_dnf_not_nnf f = false -> exists g, Dnf O true deep f = Ok g.
-Proof.
-  intros A O deep f H. apply dnf_total. unfold K_dnf_not_nnf in H. now destruct (dsafe true f).
-Qed.
-
-Lemma invariant_refuted_nary : exists f : cform,
-  arity_ok catom f = true /\ Invariant cops false f = Raise ValueErr.
-Proof. exists w_inv_nary. destruct invariant_nary_witness as [H1 [H2 _]]. now split. Qed.
-
 Lemma invariant_refuted_not_nnf : exists f : cform,
-  arity_ok catom f = true /\ forall fixed, Invariant cops fixed f = Raise AssertErr.
+  arity_ok catom f = true /\ Invariant cops f = Raise AssertErr.
 Proof. exists w_inv_not_nnf. exact invariant_not_nnf_witness. Qed.
 
 Lemma unique_shadow_refuted : atoms_sound cops csem /\
